@@ -401,6 +401,14 @@ func ClientRun(osenv *rsyncos.Env, opts *rsyncopts.Options, conn io.ReadWriter, 
 		}
 	}
 
+	if rules := opts.FilterRules(); len(rules) > 0 && opts.DeleteMode() {
+		// Entries excluded by our own rules are protected from deletion.
+		local, err := sender.ParseFilterRules(rules)
+		if err != nil {
+			return nil, err
+		}
+		rt.Excluded = local.Matches
+	}
 	for _, rule := range opts.FilterRules() {
 		c.WriteInt32(int32(len(rule)))
 		c.WriteString(rule)
